@@ -1,4 +1,11 @@
-"""R1.3 — hand-written BinRead/BinWrite pairs (filled in incrementally)."""
+"""R1.3 — hand-written BinRead/BinWrite pairs: equal wire shape, inverse discriminant tables, and for ConInfo
+field provenance per wire slot and bit provenance of writer∘reader for every field."""
+import re
+
+import bits
+import tables
+from astq import find_nodes
+from mirq import callee, fmt_origin, origin_calls, origin_fields, strip_refs
 from props.packets import norm, show
 
 HAND_TYPES = ["SmallType", "CimMode", "ConInfo", "Fuel", "Fuel200", "RaceLaps", "Vehicle", "Track", "Mso"]
@@ -28,3 +35,164 @@ def run(ctx, rep):
         rep.check("R1.3", "%s:shape" % name, ok, "hand-written %s: read shape %s vs write shape %s" % (name, show(r), show(w)),
                   ctx.loc(ent), sample={"type": name, "read": show(r), "write": show(w)})
     rep.floor("R1.3", 9)
+    discriminants(ctx, rep)
+    fuel(ctx, rep)
+    struct_pair(ctx, rep, "insim::insim::contact::ConInfo")
+    rep.floor("R1.3b", 20)
+    rep.floor("R1.3c", 30)
+
+
+def variant_of(b):
+    if b["k"] == "Path" and b["path"].startswith("Self::"):
+        return b["path"].split("::")[-1]
+    if b["k"] == "Call" and b["func"]["k"] == "Path" and b["func"]["path"].startswith("Self::"):
+        return b["func"]["path"].split("::")[-1]
+    if b["k"] == "Struct" and b["path"].startswith("Self::"):
+        return b["path"].split("::")[-1]
+    return None
+
+
+def discriminants(ctx, rep):
+    """reader table (byte -> variant) and writer table (variant -> byte) of SmallType / CimMode are inverse"""
+    for tyname in ("SmallType", "CimMode"):
+        rd, wr = {}, {}
+        rm = ctx.ast.method(tyname, "read_options", trait="BinRead")
+        wm = ctx.ast.method(tyname, "write_options", trait="BinWrite")
+        if len(rm) != 1 or len(wm) != 1:
+            rep.fail("R1.3b", "%s:found" % tyname, "reader/writer of %s not found" % tyname)
+            continue
+        for m in find_nodes(rm[0][1]["body"], lambda n: n.get("k") == "Match"):
+            for arm in m["arms"]:
+                if arm["pat"]["k"] == "Lit" and arm["pat"]["t"] == "int":
+                    v = variant_of(arm["body"])
+                    if v:
+                        rd[int(arm["pat"]["v"])] = v
+        for m in find_nodes(wm[0][1]["body"], lambda n: n.get("k") == "Match"):
+            for arm in m["arms"]:
+                p, b = arm["pat"], arm["body"]
+                v = p["path"].split("::")[-1] if p["k"] in ("Path", "TupleStruct", "Struct") else None
+                if v and b["k"] == "Tuple" and b["elems"] and b["elems"][0]["k"] == "Lit":
+                    wr[v] = int(b["elems"][0]["v"])
+        loc = ctx.loc(rm[0][0], rm[0][1]["ln"])
+        for byte, var in sorted(rd.items()):
+            rep.check("R1.3b", "%s:%s" % (tyname, var), wr.get(var) == byte, "%s: byte %d decodes to %s but %s is written as %s" % (tyname, byte, var, var, wr.get(var)), loc,
+                      sample={"type": tyname, "variant": var, "read": byte, "write": wr.get(var)})
+        rep.check("R1.3b", "%s:bijection" % tyname, len(set(rd.values())) == len(rd) and set(wr) == set(rd.values()),
+                  "%s: reader variants %s vs writer variants %s" % (tyname, sorted(rd.values()), sorted(wr)), loc)
+
+
+def fuel(ctx, rep):
+    for tyname in ("Fuel", "Fuel200"):
+        rm = ctx.ast.method(tyname, "read_options", trait="BinRead")
+        wm = ctx.ast.method(tyname, "write_options", trait="BinWrite")
+        if len(rm) != 1 or len(wm) != 1:
+            rep.fail("R1.3b", "%s:found" % tyname, "reader/writer of %s not found" % tyname)
+            continue
+        ifs = find_nodes(rm[0][1]["body"], lambda n: n.get("k") == "If" and n["cond"].get("k") == "Binary" and n["cond"]["op"] == "==")
+        rsent = int(ifs[0]["cond"]["rhs"]["v"]) if ifs and ifs[0]["cond"]["rhs"].get("k") == "Lit" else None
+        rno = bool(ifs) and tables.edesc(ifs[0]["then"][0]["e"]) == ("call", "Ok", (("path", "Self::No"),))
+        wsent = None
+        for m in find_nodes(wm[0][1]["body"], lambda n: n.get("k") == "Match"):
+            for arm in m["arms"]:
+                if arm["pat"]["k"] == "Path" and arm["pat"]["path"].endswith("No") and arm["body"]["k"] == "Lit":
+                    wsent = int(arm["body"]["v"])
+        rep.check("R1.3b", "%s:sentinel" % tyname, rsent == wsent == 255 and rno, "%s: `No` is read from %s and written as %s (must both be 255)" % (tyname, rsent, wsent),
+                  ctx.loc(rm[0][0], rm[0][1]["ln"]), sample={"type": tyname, "read_sentinel": rsent, "write_sentinel": wsent})
+
+
+def struct_pair(ctx, rep, tpath):
+    """field + bit provenance for a hand-written struct codec"""
+    short = tpath.split("::")[-1]
+    r = ctx.mir.body("<%s as binrw::binread::BinRead>::read_options" % tpath)
+    w = ctx.mir.body("<%s as binrw::binwrite::BinWrite>::write_options" % tpath)
+    if r is None or w is None:
+        rep.fail("R1.3c", "%s:found" % short, "reader/writer bodies of %s not found" % tpath)
+        return
+    # reader: wire slots in path order = read/seek calls ordered by dominance
+    rslots = []
+    for bb, t in r.calls():
+        d = callee(t)[0]
+        if d == "binrw::binread::BinRead::read_options":
+            rslots.append((bb, "read", callee(t)[2][0]))
+        elif d == "std::io::Seek::seek":
+            rslots.append((bb, "seek", None))
+    rslots.sort(key=lambda s: len([1 for o in rslots if r.dominates(o[0], s[0])]))
+    aggs = [st for bl in r.blocks for st in bl["stmts"] if st["k"] == "assign" and st["rv"]["k"] == "agg" and st["rv"].get("adt") == tpath]
+    if len(aggs) != 1:
+        rep.fail("R1.3c", "%s:aggregate" % short, "expected one %s{..} construction in the reader" % short, r.loc())
+        return
+    fields = dict(zip(aggs[0]["rv"]["fields"], aggs[0]["rv"]["ops"]))
+    slot_of_bb = {}
+    # the read call's result flows through Try::branch: map branch bb -> slot too
+    for i, (bb, kind, ty) in enumerate(rslots):
+        slot_of_bb[bb] = i
+    field_slot, field_expr = {}, {}
+    for f, op in fields.items():
+        o = r.origin(op)
+        reads = [c for c in origin_calls(o) if c[1] == "binrw::binread::BinRead::read_options"]
+        ks = sorted({slot_of_bb[c[4]] for c in reads if c[4] in slot_of_bb})
+        field_slot[f] = ks
+        field_expr[f] = o
+    # writer: slots in order
+    wslots = [(bb, t) for bb, t in w.calls_to(r"binwrite::BinWrite::write_options$")]
+    wslots.sort(key=lambda s: len([1 for o in wslots if w.dominates(o[0], s[0])]))
+    rep.check("R1.3c", "%s:slot-count" % short, len(wslots) == len(rslots), "%s: reader has %d wire slots, writer %d" % (short, len(rslots), len(wslots)), w.loc(),
+              sample={"reader_slots": len(rslots), "writer_slots": len(wslots)})
+    # domains enforced by the writer: `if self.F > K { return Err }`
+    domain = {}
+    for sbb, tg, oth, o in w.switch_on(lambda o: o[0] == "bin" and o[1] == "Gt" and o[3][0] == "const"):
+        fs = origin_fields(o[2]) - {"0"}
+        if len(fs) == 1 and "Err" in w.ret_kinds(oth) and not (w.ret_kinds(oth) - {"Err", "residual"}):
+            domain[list(fs)[0]] = o[3][1]
+    widths = {}
+    structs = ctx.mir.structs.get(tpath, {"fields": []})
+    for fd in structs["fields"]:
+        t = fd["ty"].split("::")[-1]
+        widths[fd["name"]] = bits.WIDTH.get(t, 8)
+    for k, (bb, t) in enumerate(wslots):
+        wo = strip_refs(w.origin(t["args"][0]))
+        wf = sorted(origin_fields(wo) - {"0"})
+        rf = sorted(f for f, ks in field_slot.items() if ks == [k])
+        kind = rslots[k][1] if k < len(rslots) else "?"
+        if kind == "seek":
+            ok = wo[0] == "const" and wo[1] == 0
+            rep.check("R1.3c", "%s:slot%d:pad" % (short, k), ok, "%s slot %d is skipped by the reader but the writer emits %s (must be the constant 0)" % (short, k, fmt_origin(wo)), w.loc(t["line"]), nontrivial=False)
+            continue
+        rep.check("R1.3c", "%s:slot%d:fields" % (short, k), wf == rf and len(wf) >= 1,
+                  "%s wire slot %d is written from %s but read into %s (field swapped, dropped or invented)" % (short, k, wf, rf), w.loc(t["line"]),
+                  sample={"slot": k, "written_from": wf, "read_into": rf, "writer_expr": fmt_origin(wo)})
+        if wf != rf:
+            continue
+        wty = callee(t)[2][0]
+        sw = bits.WIDTH.get(wty.split("::")[-1], None)
+        if sw is None:
+            # composite slot (PlayerId, CompCarInfo ...): identity check only
+            rep.check("R1.3c", "%s:slot%d:identity" % (short, k), wo[0] == "field" and field_expr[rf[0]][0] in ("field", "downcast"),
+                      "%s slot %d (%s) must be copied unchanged in both directions" % (short, k, wty), w.loc(t["line"]), nontrivial=False)
+            continue
+
+        def wleaf(o):
+            if o[0] == "field" and o[3] in widths and strip_refs(o[1]) == ("arg", 1):
+                return (o[3], widths[o[3]])
+            return None
+        wbits = bits.evaluate(wo, sw, wleaf)
+        # fields' enforced domains: bits above the domain are zero in any value the writer accepts
+        dom_bits = {f: (domain[f].bit_length() if f in domain else widths.get(f, sw)) for f in wf}
+        wbits = [0 if (isinstance(b, tuple) and b[2] >= dom_bits[b[1]]) else b for b in wbits]
+        for f in rf:
+            def rleaf(o, k=k):
+                x = o
+                if x[0] == "field" and x[1][0] == "downcast" and x[1][3] == "Continue":
+                    c = [cc for cc in origin_calls(x) if cc[1] == "binrw::binread::BinRead::read_options"]
+                    if c and slot_of_bb.get(c[0][4]) == k:
+                        return ("slot", sw)
+                return None
+            fw = widths.get(f, sw)
+            rbits = bits.evaluate(field_expr[f], fw, rleaf)
+            composed = bits.substitute(rbits, {"slot": wbits})
+            want = [("f", f, i) if i < dom_bits[f] else 0 for i in range(fw)]
+            lost = [i for i in range(fw) if composed[i] != want[i]]
+            rep.check("R1.3c", "%s:%s:bits" % (short, f), not lost,
+                      "%s.%s does not survive encode->decode: with the writer's domain of %d bit(s), bit(s) %s come back as %s (writer `%s`, reader `%s`)"
+                      % (short, f, dom_bits[f], lost, [composed[i] for i in lost][:4], fmt_origin(wo), fmt_origin(field_expr[f])), w.loc(t["line"]),
+                      sample={"field": f, "slot": k, "domain_bits": dom_bits[f], "writer": fmt_origin(wo), "reader": fmt_origin(field_expr[f]), "composed": [str(x) for x in composed]})
